@@ -13,6 +13,7 @@
 //! * `<out>/ops.txt`    the operation lines          → stdin of `drv_Cxx model`
 //! * `<out>/impl.out`   the implementation's results → diffed against the model's output
 //! * `<out>/spec.in`    `op \t=>\t impl-result`       → stdin of `drv_Cxx spec`
+//! * `<out>/panics.log` messages of caught panics (the canonical result is the bare word `panic`)
 //! * `<out>/stats.json` measured input distribution (evaluations, distinct non-trivial
 //!   cases, tag histogram, samples).
 //!
@@ -330,6 +331,7 @@ pub fn main_for(mut p: impl Prop) {
     let mut ops = std::io::BufWriter::new(std::fs::File::create(args.out.join("ops.txt")).unwrap());
     let mut imp = std::io::BufWriter::new(std::fs::File::create(args.out.join("impl.out")).unwrap());
     let mut spc = std::io::BufWriter::new(std::fs::File::create(args.out.join("spec.in")).unwrap());
+    let mut plog = std::io::BufWriter::new(std::fs::File::create(args.out.join("panics.log")).unwrap());
 
     let mut hist: BTreeMap<String, u64> = BTreeMap::new();
     let mut distinct: HashSet<u64> = HashSet::new();
@@ -346,9 +348,12 @@ pub fn main_for(mut p: impl Prop) {
         } else {
             guarded(|| p.run(line))
         };
-        let res = res.replace(['\n', '\t', '\r'], " ");
+        let mut res = res.replace(['\n', '\t', '\r'], " ");
         if res.starts_with("panic") {
+            // canonical form is the bare word `panic`; the message goes to panics.log
             panics += 1;
+            writeln!(plog, "{i}\t{line}\t{res}").unwrap();
+            res = "panic".to_string();
         }
         writeln!(ops, "{line}").unwrap();
         writeln!(imp, "{res}").unwrap();
@@ -373,6 +378,7 @@ pub fn main_for(mut p: impl Prop) {
     ops.flush().unwrap();
     imp.flush().unwrap();
     spc.flush().unwrap();
+    plog.flush().unwrap();
 
     let stats = serde_json::json!({
         "property_id": p.id(),
